@@ -163,7 +163,7 @@ class C17(Prop):
     theorems = ["EaselModel.Props.C17." + t for t in (
         "tables_pinned", "table_ids", "no_initiator_stop", "read_write_roundtrip", "rna_objects_ok", "expand_is_iupac", "translation_spec", "translation_shared",
         "initiator_spec", "initiator_settings", "window_split_invariant", "orf_stream_eq_spec", "orf_frame_declarative", "orf_numbering_and_order", "builtin_tables_ok",
-        "standard_code_by_amino_acid", "tables_differ_as_documented", "read_never_faults", "read_never_faults_hyps", "write_never_faults", "write_never_faults_hyps", "read_ok_is_code", "decode_digicodon_bounds", "decode_digicodon_inverse",
+        "standard_code_by_amino_acid", "tables_differ_as_documented", "read_never_faults", "read_never_faults_hyps", "write_never_faults", "write_never_faults_hyps", "read_ok_is_code", "read_ok_is_complete", "decode_digicodon_bounds", "decode_digicodon_inverse",
         "compare_spec", "process_orf_spec", "translation_out_of_alphabet_faults", "short_windows")]
     claimed = True
     technique = ("Lean 4 proof: built-in tables regenerated from the tree = hand-pinned NCBI tables by `decide`; general theorems (any table, any "
@@ -181,7 +181,7 @@ class C17(Prop):
                   "The machine model is tied to the tree by exact differential run and monitored against an independent ORF finder in Python. "
                   "Independently of the pinned strings, tables_differ_as_documented / standard_code_by_amino_acid (`decide` over the regenerated tables) state every table as its "
                   "documented differences from the standard code + its initiation codons, and the standard code by amino acid. read_never_faults: the column loop of esl_gencode_Read "
-                  "with every array access checked never leaves its arrays, for any bytes; read_ok_is_code: whatever bytes Read accepts, all 64 codons were assigned by the file to an amino acid or the stop, flags 0/1, id -1; write_never_faults: Write on any well-formed code object reads inside its arrays; translation_out_of_alphabet_faults; decode_digicodon_bounds (every int), decode_digicodon_inverse, compare_spec, process_orf_spec "
+                  "with every array access checked never leaves its arrays, for any bytes; read_ok_is_code + read_ok_is_complete: whatever bytes Read accepts, all 64 codons were assigned exactly once by the file to an amino acid or the stop, all 20 amino acids and a stop occur, flags 0/1, id -1; write_never_faults: Write on any well-formed code object reads inside its arrays; translation_out_of_alphabet_faults; decode_digicodon_bounds (every int), decode_digicodon_inverse, compare_spec, process_orf_spec "
                   "(emission iff length >= minlen, numbering, frame label, coordinates).")
     level_note = ("Trusted: Lean kernel + standard axioms; table dumper; hand model fidelity checked by the differential run (all 18^3 triplets x 18 tables "
                   "x 3 settings every run). The one-frame finder is proved equal to the declarative 'split the frame at stops, drop the codons before the first "
